@@ -127,6 +127,16 @@ def warm_field(f):
                lambda: f(f.mesh.region.center), lambda: f.real, lambda: abs(f), lambda: repr(f),
                lambda: next(iter(f)), lambda: f.mesh.dV):
         _quiet(fn)
+    # component fields and everything assembled from them (anything the field might keep for later is now filled in
+    # from the state the field is in at this moment)
+    if f.vdims is not None:
+        for v in list(f.vdims):
+            _quiet(lambda v=v: getattr(f, v).array)
+    if len(f.mesh) <= 4000:
+        for name in ("div", "curl", "laplace", "grad", "orientation", "conjugate"):
+            _quiet(lambda name=name: getattr(f, name))
+        for d in f.mesh.region.dims:
+            _quiet(lambda d=d: f.diff(d))
 
 
 def _close(a, b, scale):
@@ -287,7 +297,31 @@ def install():
     _state.update(orig_mesh=orig_mesh, orig_field=orig_field, installed=True)
 
     def mesh_init(self, *a, **k):
-        orig_mesh(self, *a, **k)
+        if _state["on"] and not _state["busy"] and _from_harness():
+            # caller-owned arguments: plain number sequences are handed over as arrays of exactly the element type the
+            # constructor converts to, and the caller's arrays are overwritten right after the call - the mesh must
+            # not keep a view of what it was given
+            k2, own = dict(k), []
+            for name in ("n", "cell", "p1", "p2"):
+                v = k.get(name)
+                if isinstance(v, (list, tuple)) and v and all(type(x) in (int, float) for x in v):
+                    if name == "n" and not all(type(x) is int for x in v):
+                        continue
+                    arr = np.array(v, dtype=np.int64 if all(type(x) is int for x in v) and name != "cell" else np.float64)
+                    if name == "cell" and not all(type(x) is float for x in v):
+                        continue                      # an integer cell stays the caller's tuple
+                    k2[name] = arr
+                    own.append(arr)
+            try:
+                orig_mesh(self, *a, **k2)
+            except Exception:
+                orig_mesh(self, *a, **k)      # raises what the plain call raises
+                own = []
+            for arr in own:
+                arr[...] = arr * 3 + 7
+            STATS["caller_args_overwritten"] = STATS.get("caller_args_overwritten", 0) + len(own)
+        else:
+            orig_mesh(self, *a, **k)
         if _state["on"] and not _state["busy"] and _from_harness():
             _state["busy"] = True
             try:
@@ -301,7 +335,25 @@ def install():
                 _state["busy"] = False
 
     def field_init(self, *a, **k):
-        orig_field(self, *a, **k)
+        if _state["on"] and not _state["busy"] and _from_harness():
+            # caller-owned arrays (value / valid): the field gets a private copy of the caller's array, which is
+            # overwritten right after the call - the field must not keep a view of it
+            k2, own = dict(k), []
+            for name in ("value", "valid"):
+                v = k.get(name)
+                if isinstance(v, np.ndarray) and v.size and v.dtype.kind in "bifc":
+                    k2[name] = np.array(v)
+                    own.append(k2[name])
+            try:
+                orig_field(self, *a, **k2)
+            except Exception:
+                orig_field(self, *a, **k)
+                own = []
+            for arr in own:
+                arr[...] = ~arr if arr.dtype.kind == "b" else arr * 3 + 7
+            STATS["caller_args_overwritten"] = STATS.get("caller_args_overwritten", 0) + len(own)
+        else:
+            orig_field(self, *a, **k)
         if _state["on"] and not _state["busy"] and _from_harness():
             _state["busy"] = True
             try:
